@@ -21,14 +21,14 @@ pub fn specs() -> Vec<PropSpec> {
         PropSpec {
             id: "C11",
             stages: vec![Stage { engine: || Box::new(bsv_core::pure::PureBump), quick_cases: 64_000_000, thorough_cases: 2_000_000_000 }],
-            quick_budget_s: 600,
-            thorough_budget_s: 7200,
+            quick_budget_s: 3600,
+            thorough_budget_s: 21600,
         },
         PropSpec {
             id: "C12",
             stages: vec![Stage { engine: || Box::new(bsv_core::pure::PureSize), quick_cases: 48_000_000, thorough_cases: 1_600_000_000 }],
-            quick_budget_s: 600,
-            thorough_budget_s: 7200,
+            quick_budget_s: 3600,
+            thorough_budget_s: 21600,
         },
     ];
     #[cfg(feature = "big")]
@@ -40,7 +40,7 @@ pub fn specs() -> Vec<PropSpec> {
         }
         macro_rules! prop {
             ($id:literal, $($st:expr),+) => {
-                v.push(PropSpec { id: $id, stages: vec![$($st),+], quick_budget_s: 900, thorough_budget_s: 10800 });
+                v.push(PropSpec { id: $id, stages: vec![$($st),+], quick_budget_s: 3600, thorough_budget_s: 21600 });
             };
         }
         prop!("C01", arena!("C01", 500_000, 6_000_000));
